@@ -3,7 +3,10 @@
 
   Property theorems only.  Carrier: any linear ordered field `K` with an element `r`, `r * r = 3`
   (√3; ℝ is an instance).  The site data (`Gen.Sites`) are regenerated from the working tree on
-  every run; `site_structure_*` / `site_instances` are re-decided on them by the kernel.
+  every run — by EXECUTING the factories: rows, angles, voltages, limits, and the dependence of every limit on
+  the capacity arguments (fitted by probing and normalised to `cap · N/D [· √3]`), so they are the same for every
+  spelling of the source; `site_structure_*` / `site_instances` / `site_default_ratings` are re-decided on them by
+  the kernel.  `simple_acn`: `AcnProofs/C16Simple.lean`.
   `vt`, `rt` are the network's tolerances (`violation_tolerance = 1e-5`, `relative_tolerance = 1e-7`):
   the network accepts `limit + max(vt, rt·limit)` per line, and that tolerance term is explicit below.
   Exact arithmetic; that the doubles stay within 1e-9 of it is validated by correspondence (partial).
@@ -63,7 +66,7 @@ theorem site_structure_office001 :
 
 /-- every executed factory call (3 sites × basic/real EVSEs × 3 capacity settings at 208 V and one at
     240 V, plus the deprecated `CaltechACN` wrapper called by keyword and positionally): the limits the
-    object carries equal the parsed formulas at the capacities passed (2⁻⁴⁰ relative for the double
+    object carries equal the fitted formulas (`cap · N/D [· √3]`, fitted by probing the factory) at the capacities passed (2⁻⁴⁰ relative for the double
     rounding; `√3` formulas compared in squared form), literal ratings exactly; the wrapper's networks
     have the same topology as `caltech_acn`'s (a swapped positional argument would create a new one). -/
 theorem site_instances :
@@ -77,7 +80,7 @@ theorem site_instances :
 /-- **The documented default ratings.**  Every factory (and the deprecated wrapper) called with NO arguments at
     all — the defaults are those of the live signatures: Caltech 150 kW, JPL 45 kW / 150 kW, Office001 50 kW,
     real (non-BASIC) EVSEs, and the 208 V topology of the site (`topo0/1/2`; another default voltage would be a
-    new topology).  The limits these objects carry equal the parsed formulas at those capacities (`instOk`), and
+    new topology).  The limits these objects carry equal the fitted formulas at those capacities (`instOk`), and
     limits, EVSE maximum rates and continuity are identical to those of the same factory called with the
     documented values passed explicitly.  (Pods 80 A, panels 100 / 225 A: `site_structure_*`.) -/
 theorem site_default_ratings :
